@@ -117,3 +117,84 @@ Qed.
 Example p2_correct :
   o_verdict (snd (step cfg_default (reach cfg_default 1000000000000 p2_history) p2_probe)) = Some VForcePass.
 Proof. vm_compute. reflexivity. Qed.
+
+(* ------------------------------------------------------------------------------------
+   P3 (seeded change C01-9): response.WithCodeResponseWriter keeps the FIRST status that
+   reached the wire (a wroteHeader flag set by WriteHeader, Write and Flush; WriteHeader
+   updates Code only while it is clear).  BreakerHandler judges cw.Code, and TimeoutHandler -
+   inside the breaker in the engine's chain - reports a timed-out request by WriteHeader(503) on
+   that writer, also after the handler has flushed part of its output (implicit 200).  With
+   the flag the late 503 no longer reaches Code: a timed-out request is recorded as a success. *)
+From GZ Require Import C01.WrapModel.
+
+Record cwst := mkCW { cw_wrote : bool; cw_code3 : Z }.
+Definition cw3_header (s : cwst) (c : Z) : cwst := if cw_wrote s then s else mkCW true c.
+Definition cw3_touch (s : cwst) : cwst := mkCW true (cw_code3 s).
+
+(* the timeoutWriter in front of the pinned writer: (tw wrote, tw code, tw flushed, cw) *)
+Definition tw3_op (t : bool * Z * bool * cwst) (o : hop) : bool * Z * bool * cwst :=
+  let '(wrote, code, flushed, cw) := t in
+  match o with
+  | HWriteHeader c => if wrote then t else (true, c, flushed, cw)
+  | HWrite => if wrote then t else (true, 200, flushed, cw)
+  | HFlush =>
+    let code1 := if wrote then code else 200 in
+    let cw1 := if flushed then cw else if code1 =? 200 then cw else cw3_header cw code1 in
+    (true, code1, true, cw3_touch cw1)             (* cw.Write + cw.Flush: the header is on the wire *)
+  end.
+
+Definition script_code_p3 (ch : hchain) (ops : list hop) (e : hend) : Z :=
+  match ch with
+  | ChPlain _ =>
+    cw_code3 (fold_left (fun s o => match o with HWriteHeader c => cw3_header s c | _ => cw3_touch s end)
+                        ops (mkCW false 200))
+  | ChTimeout _ =>
+    let '(wrote, code, flushed, cw) := fold_left tw3_op ops (false, 200, false, mkCW false 200) in
+    match e with
+    | HStallTimeout => cw_code3 (cw3_header cw 503)
+    | HStallCancel => cw_code3 (cw3_header cw 499)
+    | _ => cw_code3 (if negb (code =? 200) && negb flushed then cw3_header cw code else cw)
+    end
+  end.
+
+(* HEAD: a timed-out request is a failure for the breaker whatever the handler had sent *)
+Theorem timed_out_request_is_a_failure : forall rec ops,
+  rest_accepts (HScript (ChTimeout rec) ops HStallTimeout) = false.
+Proof. intros. reflexivity. Qed.
+
+(* HEAD without TimeoutHandler: the last status set decides, not the first *)
+Theorem last_status_decides : forall rec ops c,
+  h_code (HScript (ChPlain rec) (ops ++ [HWriteHeader c]) HReturn) = c.
+Proof. intros. cbn. rewrite fold_left_app. reflexivity. Qed.
+
+(* pinned: write, flush, then the timeout - Code stays 200: recorded as success *)
+Theorem p3_timed_out_after_flush_refuted :
+  ~ (forall rec ops, 500 <= script_code_p3 (ChTimeout rec) ops HStallTimeout).
+Proof. intros H. specialize (H true [HWrite; HFlush]). vm_compute in H. apply H. reflexivity. Qed.
+
+Theorem p3_informational_then_5xx_refuted :
+  ~ (forall rec ops c, script_code_p3 (ChPlain rec) (ops ++ [HWriteHeader c]) HReturn = c).
+Proof. intros H. specialize (H false [HWriteHeader 103] 500). vm_compute in H. discriminate H. Qed.
+
+(* the history of the seed's demonstration: a streaming handler that flushes and then times
+   out, 14 requests with a draw that lets them through, then 6 drawing 0.  HEAD: every request
+   is recorded as a failure and the last six are shed.  Pinned (each request is an Allow that
+   gets Accepted): nothing is ever shed - sustained total failure never trips the breaker. *)
+Definition p3_req (u : Q) : hreq := mkHReq (HScript (ChTimeout true) [HWrite; HFlush] HStallTimeout) 1000000 0 u.
+Definition p3_history : list hreq := repeat (p3_req (999 # 1000)) 14 ++ repeat (p3_req 0) 6.
+Definition rest_call_p3 (r : hreq) : call :=
+  mkCall (match hq_out r with
+          | HScript ch ops e => if script_code_p3 ch ops e <? 500 then EAllowAccept else EAllowReject
+          | _ => rest_entry (hq_out r)
+          end) CNone OOk (hq_gap r) (hq_dur r) (hq_u r).
+
+Example p3_head_sheds :
+  map (fun o => was_rejected o)
+      (skipn 14 (snd (run cfg_default (init_world cfg_default 1000000000000) (map rest_call p3_history))))
+  = repeat true 6.
+Proof. vm_compute. reflexivity. Qed.
+
+Theorem p3_total_failure_never_trips :
+  forallb (fun o => negb (was_rejected o))
+          (snd (run cfg_default (init_world cfg_default 1000000000000) (map rest_call_p3 p3_history))) = true.
+Proof. vm_compute. reflexivity. Qed.
